@@ -7,6 +7,7 @@ from typing import Dict, List, Optional, Set
 from ..core import Ctx, Ob, rule
 from ..infer import DATAID, EXT, NODE, NODELIST, NONE, ann_types
 from ..model import AnalysisError, Func, iter_own, norm
+from .util import reaching_values
 
 
 # -------------------------------------------------------------------- FALSY
@@ -216,6 +217,10 @@ def opt_deref(ctx: Ctx) -> List[Ob]:
             txt = norm(target)
             if isinstance(target, ast.Attribute) and target.attr == "_children" and NODE in env.types(f, target.value):
                 own_parent = norm(target.value).endswith("._parent") or norm(target.value) == "p._parent"
+                if not own_parent and isinstance(target.value, ast.Name):
+                    # a local that holds some node's parent (`new_parent = other._parent`)
+                    vals = reaching_values(ctx, f, n if not isinstance(n, ast.comprehension) else target, target.value)
+                    own_parent = bool(vals) and all(norm(v).endswith("._parent") for v in vals)
                 if own_parent:
                     continue
                 ok = _guarded_not_none(ctx, f, n if not isinstance(n, ast.comprehension) else target, txt)
